@@ -8,13 +8,24 @@ CONSTANTS
   Sp0 = 2
   Methods = {"PIT", "SN", "MPS"}
   Twos = {"no"}
+  ConvVars = {"dflt"}
+  BnVars = {"dflt"}
+  SnoVars = {1}
   AllowPl = TRUE
   AllowExcl = TRUE
   AllowReuse = TRUE
+  AllowLin3 = FALSE
+  AllowDrop = TRUE
   AllowFindings = TRUE
+  MaxHist = 1
+VIEW ViewNoHist
+INVARIANT InvConvertOk
 INVARIANT InvFnPreserved
+INVARIANT InvImportedConfig
 INVARIANT InvUserParams
 INVARIANT InvUserFn
+INVARIANT InvUserOpts
 INVARIANT InvModeKept
+INVARIANT InvFlagsLast
 INVARIANT InvExportIso
 INVARIANT InvBnAccount
